@@ -2,6 +2,7 @@
 // op_set2/op_set.rs (get_actor_safe)   (engine V)
 use vstd::prelude::*;
 use std::cmp::Ordering;
+use std::sync::Arc;
 verus! {
 
 // ---------------------------------------------------------------- assumed environment (trusted)
@@ -86,6 +87,84 @@ impl Actor {
         ensures
             *old(self) matches Actor::Cached(i) ==> *final(self) == Actor::Cached(if i >= index { (i + 1) as usize } else { i }),
             *old(self) is Unused ==> *final(self) == *old(self),
+//@ end
+}
+
+// ---- actor-table shifts of op ids (types.rs) and of the ids inside pending patch events (patches/patch_log.rs)
+pub open spec fn shift_up(o: OpId, idx: usize) -> OpId { if o.1 as usize >= idx { OpId(o.0, (o.1 + 1) as u32) } else { o } }
+pub open spec fn shift_down(o: OpId, idx: usize) -> Option<OpId> {
+    if o.1 as usize > idx { Some(OpId(o.0, (o.1 - 1) as u32)) } else if o.1 as usize == idx { None } else { Some(o) }
+}
+impl OpId {
+//@ fn rust/automerge/src/types.rs | impl OpId | actor
+//@   ret r
+//@   spec
+        ensures r == self.1 as usize,
+//@ end
+
+//@ fn rust/automerge/src/types.rs | impl OpId | with_new_actor
+//@   ret r
+//@   spec
+        requires self.1 < u32::MAX,
+        ensures r == shift_up(self, idx),
+//@ end
+
+//@ fn rust/automerge/src/types.rs | impl OpId | without_actor
+//@   ret r
+//@   spec
+        ensures r == shift_down(self, idx),
+//@ end
+}
+#[verifier::external_body] pub struct HValue { _p: () }
+pub use HValue as Value;
+#[verifier::external_body] pub struct MarkSet { _p: () }
+#[verifier::external_body] pub struct MarkAccumulator { _p: () }
+impl PartialEq for HValue { #[verifier::external_body] fn eq(&self, o: &Self) -> bool { unimplemented!() } }
+impl PartialEq for MarkSet { #[verifier::external_body] fn eq(&self, o: &Self) -> bool { unimplemented!() } }
+impl PartialEq for MarkAccumulator { #[verifier::external_body] fn eq(&self, o: &Self) -> bool { unimplemented!() } }
+impl Clone for HValue { #[verifier::external_body] fn clone(&self) -> (r: Self) ensures r == *self { unimplemented!() } }
+impl Clone for MarkSet { #[verifier::external_body] fn clone(&self) -> (r: Self) ensures r == *self { unimplemented!() } }
+impl Clone for MarkAccumulator { #[verifier::external_body] fn clone(&self) -> (r: Self) ensures r == *self { unimplemented!() } }
+//@ item rust/automerge/src/patches/patch_log.rs | enum Event
+impl Event {
+    /// the op id an event carries, if any
+    pub open spec fn spec_id(&self) -> Option<OpId> {
+        match self {
+            Event::PutMap { id, .. } => Some(*id),
+            Event::PutSeq { id, .. } => Some(*id),
+            Event::Insert { id, .. } => Some(*id),
+            Event::IncrementMap { id, .. } => Some(*id),
+            Event::IncrementSeq { id, .. } => Some(*id),
+            _ => None,
+        }
+    }
+    /// same event with another id
+    pub open spec fn with_id(self, nid: OpId) -> Event {
+        match self {
+            Event::PutMap { key, value, id, conflict } => Event::PutMap { key, value, id: nid, conflict },
+            Event::PutSeq { index, value, id, conflict } => Event::PutSeq { index, value, id: nid, conflict },
+            Event::Insert { index, value, id, conflict } => Event::Insert { index, value, id: nid, conflict },
+            Event::IncrementMap { key, n, id } => Event::IncrementMap { key, n, id: nid },
+            Event::IncrementSeq { index, n, id } => Event::IncrementSeq { index, n, id: nid },
+            e => e,
+        }
+    }
+//@ fn rust/automerge/src/patches/patch_log.rs | impl Event | with_new_actor
+//@   ret r
+//@   spec
+        requires self.spec_id() matches Some(o) ==> o.1 < u32::MAX,
+        ensures
+            // C30: EVERY id-carrying event is re-indexed when an actor is inserted; nothing else changes
+            self.spec_id() matches Some(o) ==> r == self.with_id(shift_up(o, idx)),
+            self.spec_id() is None ==> r == self,
+//@ end
+
+//@ fn rust/automerge/src/patches/patch_log.rs | impl Event | without_actor
+//@   ret r
+//@   spec
+        ensures
+            self.spec_id() matches Some(o) ==> (shift_down(o, idx) matches Some(n) ==> r == Some(self.with_id(n))) && (shift_down(o, idx) is None ==> r is None),
+            self.spec_id() is None ==> r == Some(self),
 //@ end
 }
 
